@@ -418,7 +418,9 @@ def get_units_direct(unit, thr, lo, hi, unit_blocklisted, state_blocklisted, fla
     if unit["inFeed"]:
         feed.append({"postal_code": "XX", "geographic_unit_fips": uid, "percent_expected_vote": unit["pev"], "results_turnout": 10.0})
     for i in range(22 if many else 2):
-        rows.append({"postal_code": "ZZ", "geographic_unit_fips": f"F_{i}", "percent_expected_vote": 1e9 if i else -1.0, "baseline_weights": 100.0, "turnout_factor": (lo + hi) / 2 if hi > lo else 1.0, "results_weights": 100.0, "results_turnout": 100.0, "last_election_results_turnout": 101.0, "results_normalized_margin": 0.0, "results_margin": 0.0, "last_election_results_margin": 1.0})
+        # (the filler below the threshold comes BEFORE the unit in the joined table: positions in the reporting frame are then
+        # shifted against positions in the joined table)
+        (rows.insert if i == 0 else (lambda _p, r_: rows.append(r_)))(0, {"postal_code": "ZZ", "geographic_unit_fips": f"F_{i}", "percent_expected_vote": 1e9 if i else -1.0, "baseline_weights": 100.0, "turnout_factor": (lo + hi) / 2 if hi > lo else 1.0, "results_weights": 100.0, "results_turnout": 100.0, "last_election_results_turnout": 101.0, "results_normalized_margin": 0.0, "results_margin": 0.0, "last_election_results_margin": 1.0})
         feed.append({"postal_code": "ZZ", "geographic_unit_fips": f"F_{i}", "percent_expected_vote": 1e9 if i else -1.0, "results_turnout": 100.0})
     h = CombinedDataHandler.__new__(CombinedDataHandler)
     h.estimands = list(estimands)
@@ -1467,6 +1469,15 @@ def national_summary_weights_replay(correlated=False):
         want = base + sum(weights[k] for k in names if margins[k] > 0)
         out.update(pred=float(r[0]), lower=float(r[1]), upper=float(r[2]), want=float(want))
         out["ok"] = bool(abs(r[0] - want) < 1e-9 and r[1] <= r[0] <= r[2] and base <= r[1] and r[2] <= base + sum(weights.values()))
+        # every contest called (no uncertainty left) and a fractional base whose sum with the prediction has a 5 in the third
+        # decimal: the three numbers are rounded the same way, so lower = prediction = upper
+        m.called_contests = np.array([[1 if margins[k] > 0 else 0] for k in names])
+        for fb in (0.145, 0.215, 0.675, 0.005):
+            r2 = m.get_national_summary_estimates({k: weights[k] for k in names}, fb, 0.9)["margin"]
+            if not (float(r2[1]) <= float(r2[0]) <= float(r2[2])):
+                out["ok"] = False
+                out["all_called"] = {"base": fb, "pred": float(r2[0]), "lower": float(r2[1]), "upper": float(r2[2])}
+                break
     except Exception as e:  # noqa
         out["exc"] = f"{type(e).__name__}: {e}"
         out["ok"] = False
@@ -1648,21 +1659,23 @@ def format_called_contests_replay():
     names = contests + ["zz"]
     lists = [[]] + [[x] for x in names] + [list(p) for p in itertools.permutations(names, 2)]
     out = {"exc": None, "failures": [], "cases": 0}
+    # (the call lists are handed over as lists, and -- every third pair -- as tuples / sets: any container of names)
     for lhs in lists:
         for rhs in lists:
             out["cases"] += 1
             should_raise = bool(set(lhs) & set(rhs)) or bool((set(lhs) | set(rhs)) - set(contests))
+            mk = (list, tuple, set)[out["cases"] % 3]
             try:
-                r = m._format_called_contests(list(lhs), list(rhs), list(contests), 1, 0, -1)
+                r = m._format_called_contests(mk(lhs), mk(rhs), list(contests), 1, 0, -1)
                 raised = None
             except Exception as e:  # noqa
                 raised = type(e).__name__
             if should_raise != (raised is not None) or (raised not in (None, "BootstrapElectionModelException")):
-                out["failures"].append({"lhs": lhs, "rhs": rhs, "contests": contests, "should_raise": should_raise, "raised": raised})
+                out["failures"].append({"lhs": lhs, "rhs": rhs, "container": mk.__name__, "contests": contests, "should_raise": should_raise, "raised": raised})
             elif raised is None:
                 want = [1 if c in lhs else 0 if c in rhs else -1 for c in contests]
                 if [int(v) for v in np.asarray(r).ravel()] != want:
-                    out["failures"].append({"lhs": lhs, "rhs": rhs, "got": [int(v) for v in np.asarray(r).ravel()], "want": want})
+                    out["failures"].append({"lhs": lhs, "rhs": rhs, "container": mk.__name__, "got": [int(v) for v in np.asarray(r).ravel()], "want": want})
     out["failures"] = out["failures"][:4]
     out["ok"] = not out["failures"]
     return out
@@ -1811,6 +1824,9 @@ def derived_quantities_replay(unit, policy, estimands, prepared=False):
         fid = f"F_{i}"
         base_rows.append({"postal_code": "ZZ", "geographic_unit_fips": fid, "county_fips": "c1", "baseline_turnout": 1000, "baseline_dem": 500, "baseline_gop": 450})
         feed_rows.append({"postal_code": "ZZ", "geographic_unit_fips": fid, "results_turnout": 1100 * pct // 100, "results_dem": 560 * pct // 100, "results_gop": 500 * pct // 100, "percent_expected_vote": pct})
+    # a baseline unit that is ABSENT from the feed: under the policy "zero" it is kept with zero counts, and its derived columns
+    # follow the definitions too (turnout factor 0, not a missing value)
+    base_rows.append({"postal_code": "ZZ", "geographic_unit_fips": "F_absent", "county_fips": "c1", "baseline_turnout": 800, "baseline_dem": 400, "baseline_gop": 300})
     base = pd.DataFrame(base_rows).astype({"baseline_turnout": float, "baseline_dem": float, "baseline_gop": float})
     cur = pd.DataFrame(feed_rows).astype({"results_turnout": float, "results_dem": float, "results_gop": float})
     out = {"exc": None, "failures": []}
@@ -1835,6 +1851,10 @@ def derived_quantities_replay(unit, policy, estimands, prepared=False):
             got = float(row[k])
             if not (abs(got - v) <= 1e-9 * max(1.0, abs(v))):
                 out["failures"].append({"column": k, "got": got, "definition": v})
+        if policy == "zero":
+            ab = h.data[h.data.geographic_unit_fips == "F_absent"]
+            if len(ab) != 1 or not (float(ab.turnout_factor.iloc[0]) == 0.0):
+                out["failures"].append({"unit": "F_absent (in the baseline, not in the feed)", "rows": int(len(ab)), "turnout_factor": float(ab.turnout_factor.iloc[0]) if len(ab) else None, "definition": 0.0})
         out["ok"] = not out["failures"]
     except Exception as e:  # noqa
         out["exc"] = f"{type(e).__name__}: {e}"
@@ -2695,5 +2715,36 @@ def gaussian_recursion_bottom_replay():
 
         out["exc"] = f"{type(e).__name__}: {e}"
         out["trace"] = traceback.format_exc()[-500:]
+        out["ok"] = False
+    return out
+
+
+def get_units_scenario_replay(estimands=("turnout",)):
+    """REAL CombinedDataHandler.get_units (through get_units_direct) for a fixed list of units that meet SEVERAL reasons at once or
+    sit on a boundary: each must end up in exactly one frame, once, with the first applicable category"""
+    out = {"exc": None, "problems": []}
+    B, Z, S, E = "non-modeled: blocklisted", "non-modeled: zero baseline", "non-modeled: strange turnout factor", "expected"
+    cases = [
+        # (unit, unit_blocklisted, state_blocklisted, flag_turnout, many) -> (where, category)
+        (dict(inData=True, inFeed=True, pev=100.0, bw=100.0, tf=5.0), True, False, False, False, ["third"], [B]),
+        (dict(inData=True, inFeed=True, pev=100.0, bw=0.0, tf=5.0), False, False, False, False, ["third"], [Z]),
+        (dict(inData=True, inFeed=True, pev=100.0, bw=0.0, tf=5.0), False, True, False, False, ["third"], [B]),
+        (dict(inData=True, inFeed=True, pev=100.0, bw=100.0, tf=5.0), False, False, True, True, ["third"], [S]),
+        (dict(inData=True, inFeed=True, pev=100.0, bw=100.0, tf=0.5), False, False, False, False, ["third"], [S]),  # on the lower limit
+        (dict(inData=True, inFeed=True, pev=100.0, bw=100.0, tf=2.0), False, False, False, False, ["third"], [S]),  # on the upper limit
+        (dict(inData=True, inFeed=True, pev=100.0, bw=100.0, tf=1.0), False, False, False, False, ["reporting"], [E]),
+        (dict(inData=True, inFeed=True, pev=40.0, bw=100.0, tf=5.0), False, False, False, False, ["nonreporting"], [E]),
+        (dict(inData=True, inFeed=True, pev=40.0, bw=100.0, tf=5.0), True, False, False, False, ["third"], [B]),
+        (dict(inData=False, inFeed=True, pev=100.0, bw=100.0, tf=1.0), False, False, False, False, ["third"], ["unexpected"]),
+    ]
+    try:
+        for unit_, ub, sb, ft, many, where, cat in cases:
+            r = get_units_direct(unit_, 100.0, 0.5, 2.0, ub, sb, ft, False, True, False, many, estimands=estimands)
+            if r["exc"] is not None or r.get("where") != where or r.get("category") != cat or not r.get("flags_ok"):
+                out["problems"].append({"unit": unit_, "unit_blocklisted": ub, "state_blocklisted": sb, "expected": [where, cat], "observed": [r.get("where"), r.get("category")], "exc": r["exc"]})
+        out["problems"] = out["problems"][:4]
+        out["ok"] = not out["problems"]
+    except Exception as e:  # noqa
+        out["exc"] = f"{type(e).__name__}: {e}"
         out["ok"] = False
     return out
